@@ -24,11 +24,11 @@ from mc.sem.jet import set_order
 PID = "C17"
 
 
-def universe():
-    m = EV.mesh("triangle")
+def universe(gdim=2):
+    m = EV.mesh("triangle", gdim)
     SH = ufl.FunctionSpace(m, E.P("triangle", 2))
     SD = ufl.FunctionSpace(m, E.DG("triangle", 1))
-    VH = ufl.FunctionSpace(m, E.P("triangle", 1, (2,)))
+    VH = ufl.FunctionSpace(m, E.P("triangle", 1, (gdim,)))
     RT = ufl.FunctionSpace(m, E.RT("triangle", 1))
     t = {
         "fH": ufl.Coefficient(SH),
@@ -280,6 +280,31 @@ def main(argv):
                 if s.rank == 1 and b == "n":
                     c.append(("dot", r, ("side", ("t", b), sd)))
     l3 = level(c, 3, sample_every=8000)
+    # immersed manifold (triangles in 3D, neighbour cell not coplanar): the facet normal must NOT be rewritten
+    # n('-') -> -n('+') there; reduced grammar (depth 2) around the side-dependent geometric terminals
+    U3 = universe(3)
+    envs3 = EV.interior_facet_envs("triangle", 3, facets=[0, 1], perms=[None])
+    seen3 = set()
+    names3 = ["n", "wH", "fH", "fD", "x", "cv", "u"]
+    c = []
+    for a in names3:
+        ra = ("t", a)
+        c += sides(ra)
+        for b in names3:
+            rb = ("t", b)
+            for op in ("mul", "add", "dot", "inner"):
+                for sa in ("+", "-"):
+                    for sb in ("+", "-"):
+                        c.append((op, ("side", ra, sa), ("side", rb, sb)))
+                c.append((op, ra, rb))
+                c += sides((op, ra, rb))
+    cands3 = sorted(set(c), key=repr)
+    if run.smoke:
+        cands3 = cands3[:: max(1, len(cands3) // 60)]
+    run.bounds["manifold_candidates"] = len(cands3)
+    new3 = run_level(cands3, U3, envs3, PID, run, run.seed, extra_check=restr_check, compare=False, ill_typed_hook=double_hook)
+    m3, _ = dedup(new3, seen3, 1, run)
+    run.bounds["manifold_states"] = len(m3)
     run.bounds.update(
         levels=[len(l0), len(l1), len(l2), len(l3)],
         terminals=sorted(U.t),
@@ -307,6 +332,10 @@ def replay(run, U, envs):
     recipe = tup(rp["witness"]["recipe"])
     part = Part()
     check_recipe(recipe, U, envs, part, PID, extra_check=restr_check, compare=False, ill_typed_hook=double_hook)
+    # the same recipe on the immersed manifold universe
+    U3 = universe(3)
+    envs3 = EV.interior_facet_envs("triangle", 3, facets=[0, 1], perms=[None])
+    check_recipe(recipe, U3, envs3, part, PID, extra_check=restr_check, compare=False, ill_typed_hook=double_hook)
     run.merge(part.dict())
     run.states = 1
     run.finish()
